@@ -32,7 +32,9 @@ def _delegate(sim, ins: stim.CircuitInstruction):
     c = stim.Circuit()
     c.append(ins)
     orig = ED.RefSim
-    ED.RefSim = lambda n: sim       # ref_run builds its simulator through this name
+    # ref_run builds its simulator through the module-level name RefSim (and uses its static helpers):
+    # a subclass whose constructor hands back the running simulator
+    ED.RefSim = type("RefSimShared", (orig,), {"__new__": staticmethod(lambda cls, n: sim)})
     try:
         ED.ref_run(c)
     finally:
